@@ -206,6 +206,8 @@ struct StreamPool {
             ST::string r = (f[3] == "default") ? at(o).to_string(f[2] == "u") : at(o).to_string(f[2] == "u", m);
             extra = ",ts=" + hex(r);
         }
+        else if (op == "shld") { uint64_t b = u64(f[2]); double d; memcpy(&d, &b, 8); at(o) << d; }
+        else if (op == "shlf") { uint32_t b = uint32_t(u64(f[2])); float d; memcpy(&d, &b, 4); at(o) << d; }
         else if (op == "shl16") { Block<char16_t> d = units<char16_t>(f[2], 1); at(o) << d.data(); }
         else if (op == "shl16s") { Block<char16_t> d = units<char16_t>(f[2]); at(o) << std::u16string(d.data(), d.size()); }
         else if (op == "shl16v") { Block<char16_t> d = units<char16_t>(f[2]); at(o) << std::u16string_view(d.data(), d.size()); }
